@@ -38,6 +38,7 @@ def run(ctx, rep):
     r5(ctx, rep)
     r6(ctx, rep)
     r7(ctx, rep)
+    r8(ctx, rep)
 
 
 # ---------------------------------------------------------------------------
@@ -226,3 +227,25 @@ def r7(ctx, rep):
                            'gets every constant on the branch (its own included), one target per unapplied constant; visible-world index, '
                            'unserial worlds and per-node/world counters record exactly what happened')
     common.bookkeeping(ctx, rep, R, 'C04.R7')
+
+
+def r8(ctx, rep):
+    """The witness clause: an expansion that introduces a constant or a world is exact only with a *fresh* one.  The schemas of
+    R2/R3 take the witness from Branch.new_constant() / new_world(); that these are fresh is C06 (marks above everything on the
+    branch for every arrival order; witness slots filled from the fresh marks), imported here."""
+    from ..core import Report
+    from . import c06
+    R8 = rep.rule('C04.R8', 'the witness of an existential-type / possibility-type expansion is fresh: Branch.append keeps the constant and world marks above '
+                            'everything on the branch for every arrival order and fork, and every witness slot of a rule schema is filled from them (C06.R0-R3, R6)')
+    sub = Report('C06', rep.tier, rep.repo)
+    c06.run(ctx, sub)
+    rules = ('C06.R0', 'C06.R1', 'C06.R2', 'C06.R3', 'C06.R6')
+    for rid in rules:
+        for _ in range(sub.rules.get(rid, {}).get('instances', 0)):
+            rep.instance(R8, ok=True)
+    rep.consulted |= sub.consulted
+    for f in sub.findings:
+        if f.rule in rules:
+            rep.rules[R8]['failed'] += 1
+            rep.discharged -= 1
+            rep.finding(R8, f.key.replace('C06.', 'C04.R8/C06.', 1), f.where, f.construct, f.msg)
